@@ -939,7 +939,10 @@ def body_iso_query(case, ctx):
         T0 = Iso.elliptic(n, D)
     else:
         T0 = Iso(np.eye(n + 1))
-    g = hyperbolic.Point(np.array(case["conj"]), model="klein").origin_to()
+    kc_ = np.array(case["conj"], dtype=float)
+    if float(np.linalg.norm(kc_)) > 0.8:            # (a point of the open ball)
+        kc_ = kc_ * (0.8 / float(np.linalg.norm(kc_)))
+    g = hyperbolic.Point(kc_, model="klein").origin_to()
     T = g @ T0 @ g.inv()
     M0 = np.array(T.matrix, copy=True)
     if case["col"]:
